@@ -42,6 +42,7 @@ def main():
     tier = "quick"
     jobs = 6
     seeded = False
+    only_seeded = False
     props = []
     i = 0
     while i < len(args):
@@ -51,6 +52,8 @@ def main():
             jobs = int(args[i + 1]); i += 2
         elif args[i] == "--seeded":
             seeded = True; i += 1
+        elif args[i] == "--seeded-only":
+            seeded = True; only_seeded = True; i += 1
         else:
             props.append(args[i]); i += 1
     tasks = []
@@ -59,7 +62,8 @@ def main():
         if props and prop not in props:
             continue
         for patch in sorted(glob.glob(os.path.join(d, "*.patch"))):
-            tasks.append((prop, patch, None))
+            if not only_seeded:
+                tasks.append((prop, patch, None))
     if seeded:
         for d in sorted(glob.glob(os.path.join(V, "seeded", "*"))):
             mf = os.path.join(d, "meta.json")
